@@ -480,3 +480,41 @@ def _sparse_float(self, a):
 
 SymH.sparse = _sparse_sym
 FloatH.sparse = _sparse_float
+
+
+# ---- warnings / prints emitted by the code under test, in both modes
+import contextlib as _ctxlib
+import warnings as _w
+
+
+@_ctxlib.contextmanager
+def _capture_sym(self):
+    n0 = len(CTX.events)
+    box = dict(warnings=[], prints=[])
+    try:
+        yield box
+    finally:
+        for e in CTX.events[n0:]:
+            if e[0] == "warn":
+                box["warnings"].append(e[1])
+            elif e[0] == "print":
+                box["prints"].append(e[1])
+
+
+@_ctxlib.contextmanager
+def _capture_float(self):
+    import io
+    box = dict(warnings=[], prints=[])
+    buf = io.StringIO()
+    with _w.catch_warnings(record=True) as wl:
+        _w.simplefilter("always")
+        with _ctxlib.redirect_stdout(buf):
+            try:
+                yield box
+            finally:
+                box["warnings"] = [str(x.message) for x in wl]
+                box["prints"] = [l for l in buf.getvalue().splitlines() if l]
+
+
+SymH.capture = _capture_sym
+FloatH.capture = _capture_float
